@@ -661,6 +661,19 @@ class CallMixin:
         v = self.ev(e.args[0], p)
         if v.ty == T.TUP:
             return T.scalar(T.TUP, TH.canon(v.t))
+        if isinstance(v.ty, T.Bag) and isinstance(v.ty.e, T.Pair) and v.ty.e.a == T.INT and self.cur is not None and "sorted_records" in self.cur.options:
+            # sorted(list of (time, x) records), the list being duplicate-free (obligation): a positional list of the same records, every one
+            # once, with non-decreasing times (pairs compare by their first component first); positions among equal times are not modelled
+            x = fresh("x", v.ty.e.sort())
+            self.oblige("sorted:records", "the sorted list has no repeated record", p, z3.ForAll([x], v.t[x] <= 1, patterns=[v.t[x]]))
+            st = T.Set(v.ty.e)
+            s_ = self.as_set(v, p)
+            seq = self.uniq_seq(st, s_.t, p)
+            self._assume(p, seq.len == v.ty.blen()(v.t))
+            a, b = fresh("a", T.I), fresh("b", T.I)
+            self._assume(p, z3.ForAll([a, b], z3.Implies(z3.And(0 <= a, a < b, b < seq.len), v.ty.e.fst(seq.at[a]) <= v.ty.e.fst(seq.at[b])),
+                                      patterns=[z3.MultiPattern(seq.at[a], seq.at[b])]))
+            return seq
         if isinstance(v.ty, T.Bag) or v.ty == T.EMPTYLIST:
             return v      # order is not modelled for bags
         if isinstance(v.ty, (T.Set, T.Map)):
@@ -697,7 +710,18 @@ class CallMixin:
                 self._assume(p, z3.ForAll([x], z3.Implies(v.t[x] >= 1, size(x) <= size(r) if is_max else size(x) >= size(r)), patterns=[v.t[x]]))
                 return T.scalar(v.ty.e, r)
             raise Unsupported(f"max/min(.., key=len) of {v.ty}")
-        v = self._one(e, p)
+        if len(e.args) == 1 and isinstance(e.args[0], ast.GeneratorExp) and not e.keywords:
+            g = e.args[0]     # max(<generator>) is max([<the same comprehension>])
+            v = self.ev_ListComp(ast.copy_location(ast.ListComp(elt=g.elt, generators=g.generators), g), p)
+        else:
+            v = self._one(e, p)
+        if isinstance(v.ty, T.Seq) and v.ty.e == T.INT:
+            # max / min of a positional list of ints: the value at some position, bounding every position
+            self._raise_if(p, v.len == 0, "ValueError", f"line {e.lineno}")
+            r, w, j = fresh("ext", T.I), fresh("extpos", T.I), fresh("j", T.I)
+            self._assume(p, z3.And(0 <= w, w < v.len, v.at[w] == r))
+            self._assume(p, z3.ForAll([j], z3.Implies(z3.And(0 <= j, j < v.len), v.at[j] <= r if is_max else v.at[j] >= r), patterns=[v.at[j]]))
+            return T.sv_int(r)
         if isinstance(v.ty, T.Bag) and v.ty.e == T.INT:
             self._raise_if(p, v.ty.blen()(v.t) == 0, "ValueError", f"line {e.lineno}")
             r = fresh("ext", T.I)
@@ -974,7 +998,7 @@ class CallMixin:
             raise Unsupported("comprehension element of composite type")
         at = fresh("mapped", z3.ArraySort(T.I, fx.ty.sort()))
         j = fresh("j", T.I)
-        self._assume(p, z3.ForAll([j], z3.Implies(z3.And(0 <= j, j < src.len), at[j] == z3.substitute(fx.t, (x, src.at[j]))), patterns=[at[j]]))
+        self._assume(p, z3.ForAll([j], z3.Implies(z3.And(0 <= j, j < src.len), at[j] == z3.substitute(fx.t, (x, src.at[j]))), patterns=[at[j], src.at[j]]))
         return T.sv_seq(fx.ty, src.len, at)
 
     def _bound_eval(self, target, src_elem_ty, exprs, p, lineno, member):
